@@ -383,6 +383,12 @@ def temporary_name_is_its_key(ctx):
     (unknown to the run: a value derived from the prefix at construction time may be stale)."""
     idx = get_index(ctx.env)
     fi = idx.func("RZILTransformer.resolve_hybrid")
+    # the attribute(s) that carry the prefix: what compile_sub_routine stores on the routine's transformer and resolve_hybrid reads
+    cs = idx.func("Compiler.compile_sub_routine")
+    tvars = {U(n.targets[0]) for n in ast.walk(cs.node) if isinstance(n, ast.Assign) and isinstance(n.value, ast.Call) and call_name(n.value) == "RZILTransformer"}
+    stored = {n.targets[0].attr for n in ast.walk(cs.node) if isinstance(n, ast.Assign) and isinstance(n.targets[0], ast.Attribute) and U(n.targets[0].value) in tvars}
+    read = {n.attr for n in ast.walk(fi.node) if isinstance(n, ast.Attribute) and isinstance(n.ctx, ast.Load) and U(n.value) == "self"}
+    pattrs = sorted(stored & read)
     for prefix in ("h_tmp", "h_tmp_clz32_", "h_tmp_sat_inc_2_", "t"):
         for order in ("EXEC_THEN_SET_VAL", "SET_VAL_THEN_EXEC"):
             r = Runner(idx, keep_real=("resolve_hybrid", "add_op"), node_bases=("Effect",))
@@ -390,7 +396,7 @@ def temporary_name_is_its_key(ctx):
             def once(interp, prefix=prefix, order=order):
                 r.nodes = []
                 h = AObj("ILOpsHolder", {"op_count": 5, "read_ops": {}, "exec_ops": {}, "write_ops": {}, "hybrid_effect_dict": {}, "hybrid_op_count": 3}, label="holder", opaque=False)
-                s_ = r.mk_self(il_ops_holder=h, hybrid_tmp_prefix=prefix, inlined_pure_classes=(), parameters={})
+                s_ = r.mk_self(il_ops_holder=h, inlined_pure_classes=(), parameters={}, **{a: prefix for a in pattrs})
                 r.self_obj = s_
                 hyb = AObj("Hybrid", {"value_type": mk_vt("th", True, 32), "seq_order": hyb_order(order), "references_set": set()}, label="hybrid", opaque=True)
                 v = interp.call_function(fi, [hyb], None, self_obj=s_)
@@ -403,7 +409,8 @@ def temporary_name_is_its_key(ctx):
                 nm = v.fields.get("name") if isinstance(v, AObj) else None
                 keys = [to_text(k) for k in h.fields["hybrid_effect_dict"]]
                 regs = [to_text(k) for k in h.fields["read_ops"]]
-                if not (isinstance(nm, str) and keys == [nm] and nm in regs):
+                nm = to_text(nm) if nm is not None else None
+                if not (nm is not None and keys == [nm] and nm in regs):
                     bad.append(f"temporary named {to_text(nm)}, registered {regs}, pending entry under {keys}")
             ctx.check(f"resolve_hybrid + add_op, prefix {prefix!r}, {order}: the temporary is registered under the key of its pending entry", bool(good) and not bad,
                       "one name: LocalVar name = key of hybrid_effect_dict = key of read_ops", "; ".join(sorted(set(bad))[:2]) or ("no returning path" if not good else "ok"), fn_where(idx, fi),
